@@ -1104,5 +1104,67 @@ theorem strictOk_iff (r : Region) (hr : wf r = true) (hne : r ≠ []) :
     have := (Iv.mem_iff _ _).1 (hc y hy)
     omega
 
+/-- `region.volume` counts the cells: it is the length of `region.points` -/
+theorem volume_eq (r : Region) (hr : wf r = true) : volume r = (points r).length := by
+  have hv : ∀ p ∈ r, p.2.valid = true := by
+    simp only [wf, Bool.and_eq_true, List.all_eq_true] at hr; exact hr.2
+  clear hr
+  induction r with
+  | nil => rfl
+  | cons p t ih =>
+    have ih' := ih (fun q hq => hv q (List.mem_cons_of_mem _ hq))
+    simp only [volume, points, List.map_cons, List.sum_cons, List.flatMap_cons, List.length_append,
+      List.length_map] at ih' ⊢
+    rw [Iv.length_indices p.2 (hv p (by simp)), ih']
+
+def depF (r s : Region) (q : Nat) : Bool :=
+  match r.get q, s.get q with
+  | some a, some b => b.lt a
+  | _, _ => false
+
+theorem dependency_eq (r s : Region) :
+    dependency r s = if (common r s).isEmpty then 0 else if (common r s).any (depF r s) then 1 else -1 := rfl
+
+theorem depF_eq (r s : Region) (q : Nat) : depF r s q = fShared s r q := by
+  unfold depF fShared
+  cases r.get q <;> cases s.get q <;> rfl
+
+/-- `r.dependency(s)`: 0 without a shared qudit, 1 when on SOME shared qudit all of `s` is before
+    all of `r`, -1 otherwise -/
+theorem dependency_spec (r s : Region) :
+    (dependency r s = 0 ↔ common r s = [])
+    ∧ (dependency r s = 1 ↔ ∃ q ∈ common r s, fShared s r q = true)
+    ∧ (dependency r s = -1 ↔ common r s ≠ [] ∧ ∀ q ∈ common r s, fShared s r q = false) := by
+  rw [dependency_eq]
+  by_cases he : (common r s).isEmpty = true
+  · have he' : common r s = [] := List.isEmpty_iff.1 he
+    simp [he']
+  · have hne : common r s ≠ [] := fun e => he (by simp [e])
+    simp only [he, Bool.false_eq_true, if_false]
+    by_cases ha : (common r s).any (depF r s) = true
+    · simp only [ha, if_true]
+      obtain ⟨q, hq, hq2⟩ := List.any_eq_true.1 ha
+      rw [depF_eq] at hq2
+      refine ⟨by simp [hne], ⟨fun _ => ⟨q, hq, hq2⟩, fun _ => trivial⟩, ?_⟩
+      constructor
+      · intro h; exact absurd h (by decide)
+      · rintro ⟨_, hall⟩
+        rw [hall q hq] at hq2; cases hq2
+    · simp only [ha, Bool.false_eq_true, if_false]
+      have hn : ∀ q ∈ common r s, fShared s r q = false := by
+        intro q hq
+        cases hc : fShared s r q with
+        | false => rfl
+        | true =>
+          exact absurd (List.any_eq_true.2 ⟨q, hq, by rw [depF_eq]; exact hc⟩) ha
+      refine ⟨?_, ?_, ⟨fun _ => ⟨hne, hn⟩, fun _ => trivial⟩⟩
+      · constructor
+        · intro h; exact absurd h (by decide)
+        · intro h; exact absurd h hne
+      · constructor
+        · intro h; exact absurd h (by decide)
+        · rintro ⟨q, hq, hc⟩
+          rw [hn q hq] at hc; cases hc
+
 end Region
 end BqVerif.Region
